@@ -1093,13 +1093,15 @@ def enum_mux_values(rng, comp):
 def enum_struct_layout_orders():
     """BYTE-SIZE structures whose members are positioned explicitly, in EVERY listing order (so the member listed last is
     not the one that ends last), with 0-2 bytes of padding up to BYTE-SIZE, byte-aligned members and packed bit fields, at
-    offset 1 or 2 of `[sid, (o), s, y]`; yields (composite, value) with non-zero member values (a zeroed member is visible)"""
+    offset 1 or 2 of `[sid, (o), s, y]`; yields (composite, value, cursor_issue) with non-zero member values (a zeroed member is
+    visible). `cursor_issue`: no BYTE-SIZE and the member listed last ends before the structure's extent — odxtools then places
+    `y` behind the member listed last, i.e. INTO the structure (open finding nested-structure-cursor-behind-last-listed-parameter)"""
     import itertools
     layouts = [
         # (name, bytepos, bitpos, bitlen, value)
         [("a", 0, None, 8, 0x7A), ("b", 1, None, 8, 0xBC)],
         [("a", 0, None, 8, 0x11), ("b", 1, None, 16, 0xBEEF), ("c", 3, None, 8, 0x5A)],
-        [("w", 0, 0, 12, 0xABC), ("n", 1, 4, 4, 0x5)],                 # wide value + narrow one behind it in the same bytes
+        [("w", 0, 0, 12, 0xABC), ("n", 0, 4, 4, 0x5)],                 # 12 bit value (low nibble of byte 0 + byte 1) + the high nibble of byte 0
         [("f", 0, 7, 1, 1), ("v", 1, None, 16, 0x1234)],               # flag in byte 0, 16 bit value behind it
         [("lo", 0, 0, 4, 0x9), ("hi", 0, 4, 4, 0x6), ("t", 1, None, 8, 0xE7)],
     ]
@@ -1118,7 +1120,9 @@ def enum_struct_layout_orders():
                         ps = [D.sid()] + [D.value(f"o{i}", D.u8()) for i in range(off)] + [D.value("s", st), D.value("y", D.u8())]
                         val = {"s": {nm: v for nm, _, _, _, v in lay}, "y": 0xA5}
                         val.update({f"o{i}": 0x33 for i in range(off)})
-                        yield D.Composite(f"L{n}", "request", ps), val
+                        last = lay[perm[-1]]
+                        last_end = last[1] + ((last[2] or 0) + last[3] + 7) // 8
+                        yield D.Composite(f"L{n}", "request", ps), val, (not bytesize and last_end < natural)
 
 
 def enum_minmax_terminated():
